@@ -4,8 +4,8 @@
    All statements are for ALL well-formed exon lists (boolean predicate `wf`: non-empty, first start >= 0,
    every exon non-empty, consecutive exons separated by >= 1 base, ascending), both strands. *)
 From Coq Require Import ZArith List Bool Lia.
-From MoPep Require Import Model.Base Model.Anno Model.PtrCache Gen.AnnoConst
-                          Proofs.AnnoProofs Proofs.PtrCacheProofs.
+From MoPep Require Import Model.Base Model.Anno Model.PtrCache Model.GtfPtr Gen.AnnoConst
+                          Proofs.AnnoProofs Proofs.PtrCacheProofs Proofs.GtfPtrProofs.
 Import ListNotations.
 Open Scope Z_scope.
 
@@ -164,6 +164,48 @@ Theorem cache_fixed_any_keys : forall limit load s ks,
   snd (run (get_fixed limit load) s ks) = map (spec_of load) ks.
 Proof. exact cache_fixed_history_l. Qed.
 Print Assumptions cache_fixed_any_keys.
+
+(* ---- byte-range pointers (GTFPointer.iterate_pointer / *Pointer.load) ---- *)
+(* a header comment holding a 2-byte character, a gene line, a comment between entities, one transcript
+   block of two records (one with a 3-byte character): offsets are BYTE offsets *)
+Example pointer_example :
+  let items := [IComment [35; 195; 152; 10]; IGene 1 [103; 10]; IComment [35; 10];
+                IBlock 7 [116; 226; 130; 172; 10] [[101; 10]]] in
+  iterate (flat items) = [mkPtr true 1 4 6 [7]; mkPtr false 7 8 15 []] /\ NoDup (tids items).
+Proof. vm_compute. split; [reflexivity | repeat constructor; intros []]. Qed.
+
+(* in a file whose entities are contiguous (comment lines anywhere BETWEEN entities, transcript ids not
+   repeated in a later block) the pointer of a transcript block starts at the sum of the byte lengths of
+   all preceding lines, ends after the block's bytes, is yielded unchanged, and loading that byte range
+   returns exactly the block's lines *)
+Theorem pointer_block : forall pre t b0 bs post,
+  NoDup (tids (pre ++ IBlock t b0 bs :: post)) ->
+  let file := flat (pre ++ IBlock t b0 bs :: post) in
+  let off := zlen (bytes_of (flat pre)) in
+  let p := mkPtr false t off (off + zlen (concat (b0 :: bs))) [] in
+  In p (iterate file) /\ load_range file p = concat (b0 :: bs).
+Proof. exact pointer_block_l. Qed.
+Print Assumptions pointer_block.
+
+(* same for a gene line, for ANY file (no precondition) *)
+Theorem pointer_gene : forall pre g b post,
+  let file := flat (pre ++ IGene g b :: post) in
+  let off := zlen (bytes_of (flat pre)) in
+  exists txs, In (mkPtr true g off (off + zlen b) txs) (iterate file) /\
+              load_range file (mkPtr true g off (off + zlen b) txs) = b.
+Proof. exact pointer_gene_l. Qed.
+Print Assumptions pointer_gene.
+
+(* outside the precondition: a comment line INSIDE a transcript block is part of the loaded range
+   (the text parser skips it, *Pointer.load does not) *)
+Theorem pointer_comment_inside_refuted :
+  exists ls p, In p (iterate ls) /\ p_key p = 7 /\ load_range ls p <> [116; 10; 101; 10] /\
+               load_range ls p = [116; 10; 35; 10; 101; 10].
+Proof.
+  exists [([116; 10], LRec 7); ([35; 10], LComment); ([101; 10], LRec 7)], (mkPtr false 7 0 6 []).
+  vm_compute. repeat split; auto. discriminate.
+Qed.
+Print Assumptions pointer_comment_inside_refuted.
 
 (* ---- boundary of the claims (behaviour of the code as written outside the hypotheses) ---- *)
 (* a negative transcript index is not rejected: it is mapped to a position outside the transcript *)
